@@ -41,6 +41,9 @@ type ReadCfg struct {
 	// MustRead, if set, says which units (by index of top-level unit handed
 	// over by NextFrame) must be read to their end.
 	MustRead func(unit int) bool
+	// AfterUTF8Error: the application answers ErrInvalidUTF8 by discarding
+	// the rest of the message and carrying on with the next one.
+	AfterUTF8Error bool
 }
 
 func (c ReadCfg) Name() string {
@@ -67,17 +70,18 @@ func (c ReadCfg) State() ws.State {
 
 // Rec is one thing an application was handed.
 type Rec struct {
-	Kind    byte // 'M' data message, 'C' control frame outside a message, 'I' control frame between fragments
-	Op      byte
-	Data    []byte
-	Partial bool // the application stopped reading on purpose (Discard) after Data
-	NoData  bool // the application did not look at the payload at all
-	Hdr     ws.Header
-	HasHdr  bool
-	HdrAt   int  // transport bytes consumed when the header was handed over (-1 unknown)
-	EndAt   int  // transport bytes consumed when the unit was complete (-1 unknown)
-	Short   bool // 'I': the handler's reader ended cleanly before Hdr.Length bytes
-	Failed  bool // handed over by an API call that then returned an error (ReadMessage)
+	Kind     byte // 'M' data message, 'C' control frame outside a message, 'I' control frame between fragments
+	Op       byte
+	Data     []byte
+	Partial  bool // the application stopped reading on purpose (Discard) after Data
+	NoData   bool // the application did not look at the payload at all
+	Hdr      ws.Header
+	HasHdr   bool
+	HdrAt    int  // transport bytes consumed when the header was handed over (-1 unknown)
+	EndAt    int  // transport bytes consumed when the unit was complete (-1 unknown)
+	Short    bool // 'I': the handler's reader ended cleanly before Hdr.Length bytes
+	Failed   bool // handed over by an API call that then returned an error (ReadMessage)
+	Rejected bool // 'M': reading ended in ErrInvalidUTF8; the application discarded the rest and went on
 }
 
 // ContRec is an OnContinuation callback observation.
@@ -247,6 +251,15 @@ func appReader(r *eng.Run, p *Pipe, cfg ReadCfg, o *Outcome) {
 			allow = false
 		}
 		if !readUnit(r, p, rd, rd.Discard, rec, o, allow) {
+			if cfg.AfterUTF8Error && o.Err == wsutil.ErrInvalidUTF8 && o.ErrAt == "Read" {
+				if derr := rd.Discard(); derr == nil {
+					rec.Rejected, rec.Partial = true, true
+					rec.EndAt = -1
+					o.Recs = append(o.Recs, *rec)
+					o.Open, o.Err, o.ErrAt = nil, nil, ""
+					continue
+				}
+			}
 			return
 		}
 		rec.EndAt = p.Consumed()
